@@ -3,9 +3,15 @@
 package dstate
 
 import (
+	"context"
+	"errors"
+	"net"
+
 	"github.com/hashicorp/memberlist"
 	"github.com/vx-labs/wasp/v4/wasp/audit"
 	"github.com/vx-labs/wasp/v4/wasp/distributed"
+	"go.uber.org/zap"
+	"google.golang.org/grpc"
 )
 
 type Node struct {
@@ -14,9 +20,25 @@ type Node struct {
 	Bcast *memberlist.TransmitLimitedQueue
 }
 
-func New(id uint64) *Node {
+func New(id uint64) *Node { return NewWithAudit(id, audit.NoneRecorder()) }
+
+// DownAudit is the audit sink seam in its failed position: the real gRPC recorder of wasp/audit on a connection
+// whose dialer always fails, so that every RecordEvent returns an error, as it does while the configured sink is
+// unreachable.  Auditing is a side channel: whether it works must not change what is stored or broadcast (C09).
+func DownAudit() audit.Recorder {
+	cc, err := grpc.Dial("audit-sink-down", grpc.WithInsecure(),
+		grpc.WithContextDialer(func(context.Context, string) (net.Conn, error) {
+			return nil, errors.New("injected: audit sink unreachable")
+		}))
+	if err != nil {
+		panic(err)
+	}
+	return audit.GRPCRecorder(cc, zap.NewNop())
+}
+
+func NewWithAudit(id uint64, a audit.Recorder) *Node {
 	b := &memberlist.TransmitLimitedQueue{RetransmitMult: 1, NumNodes: func() int { return 1 }}
-	return &Node{ID: id, Bcast: b, State: distributed.NewState(id, b, audit.NoneRecorder())}
+	return &Node{ID: id, Bcast: b, State: distributed.NewState(id, b, a)}
 }
 
 // Drain returns the broadcasts queued since the last call (each exactly once).
